@@ -76,7 +76,18 @@ def strat_history(draw, tier):
         # the operating system may refuse one send (ECONNREFUSED after an
         # ICMP error): the datagram handed to that send is NOT transmitted
         refuse = draw(st.sampled_from([None] * 14 + [0, 1, 2, 4, 7]))
+        # another board is booted while this boot is under way (a program
+        # with one thread per board: this thread is suspended in its k-th
+        # send while the other one boots its board from start to end)
+        overlap = None
+        if refuse is None and draw(st.integers(0, 5)) == 0:
+            name = draw(st.sampled_from(fields))
+            bits = 8 * sv.fields[name].elem_size
+            overlap = {"at": draw(st.integers(0, 3)),
+                       "preset": draw(st.sampled_from([None] + PRESETS)),
+                       "extra": {name: draw(st.integers(0, (1 << bits) - 1))}}
         calls.append({
+            "overlap": overlap,
             "refuse_send": refuse, "dims": draw(st.booleans()),
             "via": draw(st.sampled_from(["boot", "boot", "controller"])),
             "preset": preset, "extra": extra,
@@ -179,6 +190,32 @@ def check_history(case):
                     h.net.send_fault = fault
                 else:
                     h.net.send_fault = None
+                inner = None
+                if call.get("overlap") and call["via"] == "boot" and \
+                        call.get("refuse_send") is None:
+                    ov = call["overlap"]
+                    inner = {"listener": BootListener(), "done": False,
+                             "host": "board%d-other" % i, "count": 0,
+                             "options": dict(getattr(rboot, ov["preset"])
+                                             if ov["preset"] else {},
+                                             **ov["extra"])}
+                    h.net.attach(inner["host"], 54321, inner["listener"])
+
+                    def meanwhile(sock, data, inner=inner, ov=ov,
+                                  kwargs=kwargs):
+                        inner["count"] += 1
+                        if inner["count"] - 1 == ov["at"] and \
+                                not inner["done"]:
+                            inner["done"] = True
+                            inner["t"] = h.clock.now
+                            kw = {"boot_delay": 0.0, "post_boot_delay": 0.0}
+                            if "scamp_binary" in kwargs:
+                                kw["scamp_binary"] = kwargs["scamp_binary"]
+                            kw.update(inner["options"])
+                            with sut("boot of another board meanwhile"):
+                                rboot.boot(inner["host"], **kw)
+                        return None
+                    h.net.send_fault = meanwhile
                 try:
                     with sut("boot", (OSError,)):
                         if call["via"] == "boot":
@@ -283,6 +320,23 @@ def check_history(case):
                              got_length=len(got),
                              expected_length=len(expect),
                              options=options))
+                if inner is not None and inner["done"]:
+                    # the other board got the image with ITS options
+                    classes.add("overlapping-boots")
+                    nontrivial = True
+                    got2 = b""
+                    for dg in inner["listener"].datagrams[1:-1]:
+                        w2 = _split(dg)[6]
+                        got2 += struct.pack("<%dI" % len(w2 or ()),
+                                            *(w2 or ()))
+                    t2 = int(inner["t"])
+                    conf2 = svstruct.pack_defaults(sv, dict(
+                        inner["options"], unix_time=t2, boot_sig=t2,
+                        root_chip=1))[:128]
+                    require(got2 == image[:384] + conf2 + image[512:],
+                            "a board booted while another boot was under "
+                            "way did not get the image with its own options",
+                            dict(det, options=inner["options"]))
                 # returned structs describe the same values
                 rsv = structs[b"sv"]
                 for name, f in sv.fields.items():
@@ -314,8 +368,11 @@ CLAUSES = [
                 "MachineController.boot), each with a board preset and/or "
                 "arbitrary overrides passed by keyword, as sv_overrides, "
                 "both, or through a dict the caller re-uses; images of "
-                "512..32764 bytes incl. the bundled one; non-trivial = a "
-                "call with options is followed by a call without",
+                "512..32764 bytes incl. the bundled one; one call in six is "
+                "suspended in one of its first sends while another board is "
+                "booted with other options; non-trivial = a call with "
+                "options is followed by a call without, or two boots "
+                "overlap",
            examples={"quick": 600, "thorough": 3000},
            shards={"quick": 8, "thorough": 16},
            # every history starts in a process that has booted nothing yet
